@@ -548,6 +548,7 @@ func (g *Gen) between() {
 		g.cur = v
 		g.curOps, g.dirty = nil, false
 		if v < g.latest {
+			stay := false
 			// what follows: identical re-commit, different re-commit, or go back to latest
 			switch r.Intn(4) {
 			case 3:
@@ -561,10 +562,33 @@ func (g *Gen) between() {
 					}
 					g.emit(Step{Op: OpSave})
 					g.cur = v + 1
+					if !b.SortedWrites && r.Chance(1, 2) {
+						// discard (with or without uncommitted writes) right after the
+						// identical re-commit: the handle must stay at version v+1
+						if r.Chance(1, 2) {
+							saveOps := g.curOps
+							g.writes()
+							g.curOps = saveOps
+						}
+						g.emit(Step{Op: OpDiscard})
+						g.dirty = false
+						if g.cur == g.latest && r.Chance(2, 3) {
+							// ... and the history goes on from this handle
+							g.curOps = nil
+							stay = true
+							break
+						}
+						if r.Chance(1, 2) {
+							g.emit(Step{Op: OpSave}) // v+2 again: identical only if it was a commit without writes
+						}
+					}
 				}
 			case 1:
 				g.emit(Step{Op: OpSet, K: g.key(), V: g.value()})
 				g.emit(Step{Op: OpSave}) // must fail, store unchanged
+			}
+			if stay {
+				return
 			}
 			// return to the latest version before continuing the history
 			g.emit(Step{Op: OpReopen, Fast: g.fastChoice(), Cache: ip(r.Pick(0, 2, 1000))})
